@@ -22,7 +22,7 @@ PROPS = {
         variants=V_DEFAULT,
         areas=["proto."],
         allowed_native=["Enc.Lemmas.Proto"],
-        main_theorem="Enc.Props.C03.size_eq_len_encode / roundtrip",
+        main_theorem="Enc.Props.C03.Size_eq_len_Marshal, unmarshal_marshal, unmarshal_marshal_partial, unmarshal_marshal_map_partial",
         rule="random message types (reflect.StructOf: scalars, byte arrays, RawMessage, nested/pointer structs, repeated, maps, "
              "protobuf struct tags with numbers/zigzag/fixed) x random values (integer width boundaries, float bit patterns, "
              "nil vs empty, collection sizes around the cap-10 growth); ops: Marshal (bytes+Size vs Lean model, byte for byte), "
@@ -34,7 +34,7 @@ PROPS = {
     "C12": dict(
         lean_modules=["Enc.Props.C12"],
         variants=V_DEFAULT, areas=["proto."], allowed_native=["Enc.Lemmas.Proto"],
-        main_theorem="Enc.Props.C12 (wire format conformance)",
+        main_theorem="Enc.Props.C12.struct_bytes(_maps), reference_decodes_marshal(_partial, _maps_partial), unmarshal_of_reference_decode, unmarshal_iff_reference_decode",
         rule="random message types x values: (1) Marshal's bytes decoded by the Lean reference decoder (written from the protobuf "
              "encoding spec) must give the same field values; (2) legal re-encodings built by an independent wire-level "
              "re-encoder (field order shuffled, non-minimal varints in tags/lengths/values, embedded messages split in two "
@@ -55,7 +55,7 @@ PROPS = {
     "C07": dict(
         lean_modules=["Enc.Props.C07"],
         variants=V_DEFAULT, areas=["proto."], allowed_native=["Enc.Lemmas.Proto"],
-        main_theorem="Enc.Props.C07 (totality / unknown-field skipping)",
+        main_theorem="Enc.Props.C07.unmarshal_ne_panic, unmarshal_skip_front, unmarshal_skip_anywhere, decode_bound",
         rule="for random message types x values: every prefix of a valid encoding, 6 mutations, unknown fields of every wire "
              "type (numbers up to 2^29-1, nested) inserted at every top-level boundary, Scan/Parse vs an independent wire "
              "parser, allocation measured against K*len; plus adversarial byte strings (huge lengths, 8-13 byte varints). "
@@ -83,7 +83,7 @@ PROPS = {
         trusted_base=["Spec.Thrift is the reference implementation (no Apache Thrift library offline): written from the public "
                       "binary/compact protocol specifications", "io.Reader plumbing is modelled as reading from a byte list"],
         assumptions=["union fields, embedded-struct flattening and unsigned kinds are outside the modelled universe"],
-        main_theorem="Enc.Props.C04 (round trip)",
+        main_theorem="Enc.Props.C04.unmarshal_marshal, unmarshal_marshal_exact, protocols_agree",
         rule="random struct types (ids in any order, gaps >15, spans >64, required/optional/enum, nested, pointers, lists, sets, "
              "maps) x random values x {binary strict, binary non-strict, compact}: Unmarshal(Marshal(v)) vs canon(v), bytes vs "
              "the Lean model, cross-protocol equality of decoded values, Encoder/Decoder.Reset vs fresh",
@@ -94,7 +94,7 @@ PROPS = {
         trusted_base=["Spec.Thrift is the reference implementation (no Apache Thrift library offline): written from the public "
                       "binary/compact protocol specifications", "io.Reader plumbing is modelled as reading from a byte list"],
         assumptions=["union fields, embedded-struct flattening and unsigned kinds are outside the modelled universe"],
-        main_theorem="Enc.Props.C08 (totality, error classes, skipping)",
+        main_theorem="Enc.Props.C08.unmarshal_total, unmarshal_trunc, unmarshal_append_trailing, skip_consumes_exactly",
         rule="for random types x values x 3 protocols: truncation at EVERY offset (error class must be unexpected-EOF, EOF only "
              "for empty input), trailing byte, unknown field of every thrift type (nested structs, lists, maps, sets, compact "
              "bool-in-header) inserted before the stop field, 4 mutations in strict/non-strict mode, allocation vs K*len; "
@@ -106,7 +106,7 @@ PROPS = {
         trusted_base=["Spec.Thrift is the reference implementation (no Apache Thrift library offline): written from the public "
                       "binary/compact protocol specifications", "io.Reader plumbing is modelled as reading from a byte list"],
         assumptions=["union fields, embedded-struct flattening and unsigned kinds are outside the modelled universe"],
-        main_theorem="Enc.Props.C13 (wire conformance)",
+        main_theorem="Enc.Props.C13.encode_compact_eq_spec, encode_binary_eq_spec_mod, accept_unmarshal",
         rule="random types x values x 3 protocols: Marshal's bytes vs the Lean model (byte for byte) and vs the Lean reference "
              "encoder written from the Apache specifications; compact long-form re-encodings (field headers, list headers) must "
              "decode to the same value; message headers for every type/name/seqid class",
@@ -131,7 +131,7 @@ PROPS = {
         lean_modules=["Enc.Props.C11"],
         variants=V_DEFAULT, areas=["json.Decoder", "json.Parse", "json.skipSpaces", "json.decoder_parse"],
         allowed_native=["Enc.Lemmas.Json", "Lemmas.JsonScan"],
-        main_theorem="Enc.Props.C11 (chunking independence of readValue)",
+        main_theorem="Enc.Props.C11.decodeAll_eq_spec, chunking_independent, window_ok_stable",
         rule="value sequences with members placed to straddle / end exactly at offsets 4096, 32768, 36864, 65536 x chunkings "
              "{single read, 1-byte reads, primes, exactly-to-the-edge with zero-length reads, random} x {clean EOF, data delivered "
              "with EOF, terminal non-EOF error at a chunk boundary, data delivered with that error}; short streams cut at every "
@@ -160,7 +160,7 @@ PROPS = {
                                    "proto.parseRewriteTemplate", "proto.ParseRewriteTemplate", "proto.bitOrRW", "proto.BitOr", "proto.Append", "proto.Parse",
                                    "proto.RawMessage"],
         allowed_native=["Enc.Lemmas.Proto"],
-        main_theorem="Enc.Props.C19 (rewrite = replace on records)",
+        main_theorem="Enc.Props.C19.rewrite_spec, rewrite_spec_exact, untemplated_fields_kept, rewrite_never_panics",
         rule="(1) MessageRewriters assembled from RawMessage / Multi leaves at field numbers 1..70000 (incl. 255/256/257/4095/65535/"
              "65536) x inputs where templated numbers are absent / occur once / repeatedly, interleaved with other fields and "
              "mutated: output bytes vs the Lean model, parsed records vs the Lean record-level specification, input untouched, "
